@@ -185,31 +185,49 @@ macro_rules! pol_harness {
     };
 }
 
-// @harness props=C04,C10 tier=quick timeout=1500 mem=12 stubbing=1 replay=native
+// @harness props=C04 tier=quick timeout=1500 mem=12 stubbing=1 replay=native
 // @desc sufficient_insert_inplace_space at the exact size boundary: with the page one byte too short the in-place insert is refused; with an exactly fitting page it is admitted (on a large page, order > 0, only for an append) and the real LeafMutator::insert then fills the page exactly and leaves it well-formed for the independent decoder - the admission predicate and the mutator agree to the byte
 // @functions LeafMutator::{sufficient_insert_inplace_space,new,insert,update_key_end,update_value_end}, LeafAccessor::{new,total_length,num_pairs}
 // @bound page = first L bytes of a 64-byte buffer with L = old total + needed (- 1); 2-pair pre-state of the named width combination; position and page order as named; all bytes arbitrary
 // @stubs crate::panicking -> false; alloc::fmt::format -> empty
 pol_harness!(c04_insert_admission_vv_at1, insert_admission_case(VV2, 1, 3, 1, 0));
+pol_harness!(c04_insert_admission_large_append, insert_admission_case(VV2, 2, 1, 1, 1));
+
+// @harness props=C04 tier=thorough timeout=1500 mem=12 stubbing=1 replay=native
+// @desc sufficient_insert_inplace_space at the exact size boundary: with the page one byte too short the in-place insert is refused; with an exactly fitting page it is admitted (on a large page, order > 0, only for an append) and the real LeafMutator::insert then fills the page exactly and leaves it well-formed for the independent decoder - the admission predicate and the mutator agree to the byte
+// @functions LeafMutator::{sufficient_insert_inplace_space,new,insert,update_key_end,update_value_end}, LeafAccessor::{new,total_length,num_pairs}
+// @bound page = first L bytes of a 64-byte buffer with L = old total + needed (- 1); 2-pair pre-state of the named width combination; position and page order as named; all bytes arbitrary
+// @stubs crate::panicking -> false; alloc::fmt::format -> empty
 pol_harness!(c04_insert_admission_vv_append, insert_admission_case(VV2, 2, 0, 2, 0));
 pol_harness!(c04_insert_admission_fv_at0, insert_admission_case(FV2, 0, 2, 1, 0));
 pol_harness!(c04_insert_admission_vf_at1, insert_admission_case(VF2, 1, 2, 2, 0));
 pol_harness!(c04_insert_admission_ff_at2, insert_admission_case(FF2, 2, 3, 1, 0));
-pol_harness!(c04_insert_admission_large_mid, insert_admission_case(VV2, 1, 1, 1, 1));
-pol_harness!(c04_insert_admission_large_append, insert_admission_case(VV2, 2, 1, 1, 1));
 
 const VV3: Shape = Shape { n: 3, kl: [2, 0, 3, 0], vl: [1, 3, 0, 0], fk: None, fv: None };
 const FV3: Shape = Shape { n: 3, kl: [2, 2, 2, 0], vl: [0, 3, 1, 0], fk: Some(2), fv: None };
 
-// @harness props=C04,C10 tier=quick timeout=1500 mem=12 stubbing=1 replay=native
+// @harness props=C04 tier=quick timeout=1500 mem=12 stubbing=1 replay=native
 // @desc sufficient_replace_inplace_space at the exact size boundary: a growing replacement is refused when the page is one byte short and admitted when it fits exactly; a shrinking or equal one is always admitted; the real LeafMutator::replace then yields a well-formed page of exactly the new total length
 // @functions LeafMutator::{sufficient_replace_inplace_space,new,replace,update_value_end}, LeafAccessor::{new,total_length,value_range}
 // @bound page = first L bytes of a 64-byte buffer; 3-pair pre-state (variable/variable or fixed 2-byte key); position and new value length as named; all bytes arbitrary
 // @stubs crate::panicking -> false; alloc::fmt::format -> empty
 pol_harness!(c04_replace_admission_vv_grow, replace_admission_case(VV3, 0, 3));
-pol_harness!(c04_replace_admission_vv_shrink, replace_admission_case(VV3, 1, 1));
 pol_harness!(c04_replace_admission_fv_grow_last, replace_admission_case(FV3, 2, 3));
+
+// @harness props=C04 tier=thorough timeout=1500 mem=12 stubbing=1 replay=native
+// @desc sufficient_replace_inplace_space at the exact size boundary: a growing replacement is refused when the page is one byte short and admitted when it fits exactly; a shrinking or equal one is always admitted; the real LeafMutator::replace then yields a well-formed page of exactly the new total length
+// @functions LeafMutator::{sufficient_replace_inplace_space,new,replace,update_value_end}, LeafAccessor::{new,total_length,value_range}
+// @bound page = first L bytes of a 64-byte buffer; 3-pair pre-state (variable/variable or fixed 2-byte key); position and new value length as named; all bytes arbitrary
+// @stubs crate::panicking -> false; alloc::fmt::format -> empty
+pol_harness!(c04_replace_admission_vv_shrink, replace_admission_case(VV3, 1, 1));
 pol_harness!(c04_replace_admission_fv_grow_first, replace_admission_case(FV3, 0, 2));
+
+// @harness props=C04 tier=quick timeout=1500 mem=12 stubbing=1 replay=native optcover=exact-fit
+// @desc sufficient_insert_inplace_space on a LARGE page (order 1) for an insert in the middle: refused even when the bytes would fit exactly (large pages only admit in-place appends; everything else is rebuilt to avoid write amplification), and refused when one byte short
+// @functions LeafMutator::sufficient_insert_inplace_space, LeafAccessor::{new,total_length,num_pairs}
+// @bound as c04_insert_admission_vv_at1, page order 1, position 1 of 2
+// @stubs crate::panicking -> false; alloc::fmt::format -> empty
+pol_harness!(c04_insert_admission_large_mid, insert_admission_case(VV2, 1, 1, 1, 1));
 
 // ---- branch size policy -----------------------------------------------------------------------------
 
